@@ -16,4 +16,5 @@ let lookup (p : string) : Model.val0 -> Model.val0 =
   | "C19" -> Model.run_C19
   | "C07" -> Model.run_C07
   | "C06" -> Model.run_C06
+  | "C04" -> Model.run_C04
   | _ -> failwith ("unknown property " ^ p)
